@@ -75,9 +75,20 @@ class SetEncoder(AbstractItemEncoder):
         namedTypes = value.componentType
         substrate = self.protoDict()
 
-        for idx, (key, subValue) in enumerate(value.items()):
-            if namedTypes and namedTypes[idx].isOptional and not value[idx].isValue:
-                continue
+        for idx, key in enumerate(value.keys()):
+            if namedTypes and namedTypes[idx].isOptional:
+                # do not instantiate an OPTIONAL component that was never
+                # assigned: a fresh container whose own components are all
+                # optional counts as a value and would come out as {}
+                subValue = value.getComponentByPosition(
+                    idx, default=None, instantiate=False)
+
+                if subValue is None or not subValue.isValue:
+                    continue
+
+            else:
+                subValue = value[key]
+
             substrate[key] = encodeFun(subValue, **options)
         return substrate
 
